@@ -490,6 +490,20 @@ def norm_check(ex, cond, val, F):
     return {'kind': 'unknown', 'term': c}
 
 
+def fold_trivial_call(ex, t):
+    """`f()` for a local function whose body is `return <constant>` is that constant"""
+    if t[0] == 'call' and not t[2]:
+        c = ex.callees.get(t[1])
+        if c is not None and c.lid is not None:
+            try:
+                outs = ex.paths(c.lid)
+            except Exception:
+                return t
+            if len(outs) == 1 and outs[0].kind == 'return' and not outs[0].conds and outs[0].ret and outs[0].ret[0] == 'const' and outs[0].ret[2] is not None:
+                return outs[0].ret
+    return t
+
+
 def bound_matches(ex, chk, v, d):
     """R-BOUND: the bound a check compares against denotes what the user wrote. True/False/None"""
     b = chk['bound']
@@ -498,7 +512,9 @@ def bound_matches(ex, chk, v, d):
         if b[0] == 'call' and not b[2]:
             c = ex.callees.get(b[1])
             return c is not None and c.path == v['text'].replace('()', '')
-        return False
+        if not (b[0] == 'const' and b[2] is not None and v.get('value') is not None):
+            return False
+        # the call was evaluated at compile time (a bound bound to a `const` first): fall through to the value comparison
     want = v.get('value')
     if want is None:
         return None
